@@ -2,6 +2,7 @@
 C16 — Registering a name charges the listed price and yields a live name for the term.
 -/
 import Canine.Proofs.Rns
+import Canine.Query.Rns
 import Canine.Generated.PureFns
 namespace Canine.Rns
 open Bank
@@ -203,5 +204,19 @@ theorem C16_generated_price_table_is_the_model (name tld : String)
     have d : ¬ ((k:Int) + 1 + 1 + 1 + 1 + 1 = 3) := by omega
     have e : ¬ ((k:Int) + 1 + 1 + 1 + 1 + 1 = 4) := by omega
     simp [a, b, c, d, e]
+
+/-- **Afterwards the name resolves to the registrant — through the query server.**  After a
+successful registration of a plain name (`label.tld`, the label without a record part), the `Name`
+query for that name returns the record just written: owned by the registrant's canonical address,
+with the data given.  (`hplain`: `GetSubdomain` finds no record part in the label.) -/
+theorem C16_name_query_resolves_to_registrant (s s' : State) (h : Int) (c raw n dta : String) (y : Int) (p : Bool)
+    (hstep : step s h (.register c raw n dta y p) = some s')
+    (hplain : ∀ nm tld, nameAndTLD n = some (nm, tld) → Query.getSubdomain nm = ("", nm, false)) :
+    ∃ cc w', acct s c = some cc ∧ Query.run s' (.name n n) = .name w' ∧ w'.value = cc ∧ w'.data = dta := by
+  obtain ⟨cc, nm, tld, w', hcc, hnt, hget, hv, hd, _⟩ := C16_register_result s s' h c raw n dta y p hstep
+  refine ⟨cc, w', hcc, ?_, hv, hd⟩
+  have hp := hplain nm tld hnt
+  simp only [Query.run, Query.nameQuery, hnt, hp]
+  simp only [Bool.false_eq_true, if_false, hget]
 
 end Canine.Rns
